@@ -15,5 +15,15 @@ HeldFails(e) ==
   IF "held_then" \in DOMAIN e /\ e.held_then # e.held_now
   THEN "a result or instance kept from earlier (" \o e.held_what \o ") is no longer what it was after later calls / other instances; "
   ELSE ""
-Report(l, f, e) == LET g == f \o HeldFails(e) IN g = "" \/ PrintT("VERIF-FAIL " \o ToString(l) \o " " \o g)
+\* Specification -> code replay: an event of a behaviour that TLC generated from the abstract model (modules *Gen.tla)
+\* carries `exp`, the observation the model predicted when it generated the step, and `got`, the recorder's projection of
+\* what the real object showed after the same step.  (The trace specification recomputes the observation as well; this
+\* clause ties the generated behaviour itself to the code, so a step the implementation cannot follow is reported even
+\* where the two oracles would be wrong together.)
+ExpFails(e) ==
+  IF "exp" \notin DOMAIN e THEN ""
+  ELSE IF "got" \notin DOMAIN e THEN "HARNESS: replayed behaviour without a projection; "
+  ELSE IF e.exp = e.got THEN ""
+  ELSE "replayed specification behaviour: the implementation does not show what the model predicted for this step; "
+Report(l, f, e) == LET g == f \o HeldFails(e) \o ExpFails(e) IN g = "" \/ PrintT("VERIF-FAIL " \o ToString(l) \o " " \o g)
 =============================================================================
